@@ -9,15 +9,15 @@ TB = ('rustc name/type resolution and MIR construction; pinned dependency crates
 
 CLAIMS = {
     'C01': dict(
-        technique='kind-directed abstract evaluation of MIR (constant propagation over the finite SyntaxKind lattice) of every dispatcher and child-dispatch loop, per grammar child kind; truth tables for paren removal / optional parens and the mode they establish; who-may-reorder',
-        text='Partial: decides total type-directed dispatch, that no significant child kind is dropped at any dispatch site, spelling agreement, the order/disambiguation clauses, and that optional delimiters establish the mode their body is converted in (statement boundaries). Quantifies over (dispatch site x grammar kind) pairs instead of inputs, including pairs no fixture contains. Does not decide the round trip. Found and repaired the in / not in chain defect and F15 (parentheses of a literal after #).',
+        technique='kind-directed abstract evaluation of MIR (constant propagation over the finite SyntaxKind lattice) of every dispatcher and child-dispatch loop, per grammar child kind; truth tables for paren removal / optional parens and the mode they establish; who-may-reorder and who-may-filter the children; abstract evaluation of complete child sequences at the flow sites against the lexer\'s token-fusion relation; printer-side mode simulation for expressions embedded with #',
+        text='Partial: decides total type-directed dispatch, that no significant child kind is dropped at any dispatch site, spelling agreement, the order/disambiguation clauses, and that optional delimiters establish the mode their body is converted in (statement boundaries). Quantifies over (dispatch site x grammar kind) pairs instead of inputs, including pairs no fixture contains. Also decides, at the 21 code-mode sites printed by the flow helper, that tokens the lexer would fuse stay separated for every child sequence the grammar allows, and that an expression embedded with # in math is converted in code mode. Does not decide the round trip. Found and repaired the in / not in chain defect and F15 (parentheses of a literal after #); one known finding (F20, `1.` + field access).',
         design_ref='DESIGN.md §2 C01'),
     'C04': dict(
-        technique='abstract evaluation of child sequences at every comment-emitting site (state carried between iterations): <LineComment, Space+nl>, <LineComment, Space+nl, X> where the terminator is a queued item, <LineComment, END> where only part of the children is iterated; the list printer under the forced layout; shape check of the line-break text predicate; optional-delimiter helpers per mode',
-        text='Partial: decides that a line comment is always followed by a hard line break before the next token (also when later children un-queue items or the line break after the comment is among stripped edge children), that the line-break predicate is the lexer\'s, and that optional delimiters are paired under one group with the body converted in the matching mode. Token fusion and width-dependent effects are not decided. Found and repaired F8, F11, F12, F13.',
+        technique='abstract evaluation of child sequences at every comment-emitting site (state carried between iterations): <LineComment, Space+nl>, <LineComment, Space+nl, X> where the terminator is a queued item, <LineComment, END> where only part of the children is iterated; the list printer under the forced layout; shape check of the line-break text predicate; optional-delimiter helpers per mode; abstract evaluation of complete child sequences (a Space between every two children) at the flow sites, the returned document walked against the code lexer\'s token-fusion relation; printer-side mode simulation (after # in math the printer is in code mode)',
+        text='Partial: decides that a line comment is always followed by a hard line break before the next token (also when later children un-queue items or the line break after the comment is among stripped edge children), that the line-break predicate is the lexer\'s, and that optional delimiters are paired under one group with the body converted in the matching mode. Token fusion is decided at the flow sites (keywords, operators, patterns, expressions of let / if / for / while / set / show / import / closures / named / keyed / spread / unary / binary), not at the list and chain stylists or at markup and math edges; width-dependent effects are not decided. Found and repaired F8, F11, F12, F13; one known finding (F20).',
         design_ref='DESIGN.md §2 C04'),
     'C06': dict(
-        technique='kind-directed abstract evaluation per comment kind at every dispatch loop; whole-path evaluation of converters for typed-accessor bypasses; MIR recognition of scan-guard idioms over node collections with per-kind coverage evaluation; string-transformer inventory of the comment converter',
+        technique='kind-directed abstract evaluation per comment kind at every dispatch loop; whole-path evaluation of converters for typed-accessor bypasses; MIR recognition of scan-guard idioms over node collections with per-kind coverage evaluation; string-transformer inventory of the comment converter; soundness of attribute-based comment guards (completeness of the attribute pass); who-may-filter the children',
         text='Partial: decides that every comment child reaches an emitting branch on every path, that converters which never walk their children (or rebuild the nodes of a collection from accessors) are comment-free or guarded by a test that covers all of them, that comment text is only de-indented, and the line-comment discipline of C04. Found and repaired F4, F8, F11, F12, F13.',
         design_ref='DESIGN.md §2 C06'),
     'C07': dict(
@@ -37,7 +37,7 @@ CLAIMS = {
         text='Partial: decides that a math Space maps to exactly space / hard line by its own text, is never dropped or created in the non-exempt constructs, and that breaks are suppressed below Math. Found and repaired F9.',
         design_ref='DESIGN.md §2 C09'),
     'C10': dict(
-        technique='leaf-converter abstract evaluation, per-kind evaluation of the raw converter, must-pass-through edges for the verbatim guard, taint of the rendered text',
+        technique='leaf-converter abstract evaluation, per-kind evaluation of the raw converter, must-pass-through edges for the verbatim guard, taint of the rendered text, truth table of paren removal directly after #',
         text='Partial: literal leaves reach the document byte for byte, raw text is rebuilt child by child, multi-line inline raw is copied verbatim, and transformers downstream of rendering are inventoried (one known finding: trailing-blank stripping, which C11 demands).',
         design_ref='DESIGN.md §2 C10'),
     'C05': dict(
@@ -58,7 +58,7 @@ CLAIMS = {
              'appends trim_end(line)+LF per line and returns "\\n" for empty input; tests can only sample inputs.',
         design_ref='DESIGN.md §2 C11'),
     'C12': dict(
-        technique='provenance of every nest amount, who-may-call for column combinators, forward taint of Config.tab_spaces, writer inventory',
+        technique='provenance of every nest amount, who-may-call for column combinators, forward taint of Config.tab_spaces, writer inventory, sequence evaluation of the pass that marks format-disabled (verbatim) nodes',
         text='Complete under the renderer contract: every indentation step is the configured unit and the unit never reaches a comparison, switch or arithmetic, '
              'so the number of steps cannot depend on it. Quantifies over all code paths instead of sampled inputs/units.',
         design_ref='DESIGN.md §2 C12'),
@@ -75,7 +75,7 @@ CLAIMS = {
         text='Option plumbing, funnelling into one render entry, the byte-exact print idiom and the absence of any other stdout writer in stdout-output mode are decided on every path; clap parsing is trusted.',
         design_ref='DESIGN.md §2 C16'),
     'C17': dict(
-        technique='effect analysis over the resolved MIR call graph (who-may-call, no shared state, no hash-order iteration)',
+        technique='effect analysis over the resolved MIR call graph (who-may-call incl. the global-state functions of the dependencies, no shared state, no hash-order iteration); who-may-write-stdout and print idiom of the CLI',
         text='Structural proof obligations over the MIR of /repo: the effect closure of typstyle-core\'s public API is free of ambient authority, '
              'shared mutable state and hash-order iteration; per-call state; Send+Sync. For schedules/histories this is the complete argument '
              'available short of verifying the dependencies; a runtime test can only sample interleavings.',
